@@ -577,6 +577,122 @@ func direct(r *Rng, sink *Sink, n int) int {
 			}
 		}
 	}
+	if prop == "C02" {
+		// FoldM / Traverse / SequenceIterator over an ITERATOR source: after the first failed step no further
+		// element is pulled and the source is not even asked again (C02: "returns at the first failed step
+		// without pulling further elements")
+		for i := 0; i < n/10+2; i++ {
+			m := r.Range(2, 6)
+			at := r.Intn(m)
+			type probe struct {
+				name string
+				run  func(it fp.Iterator[any], failed func(any) bool) bool // returns "the result is a failure"
+			}
+			isAt := func(x any) bool { return AsInt(x) == at }
+			probes := []probe{
+				{"option.FoldM", func(it fp.Iterator[any], bad func(any) bool) bool {
+					return option.FoldM(it, 0, func(acc int, x any) fp.Option[int] {
+						if bad(x) {
+							return fp.None[int]()
+						}
+						return fp.Some(acc + 1)
+					}).IsEmpty()
+				}},
+				{"option.Traverse", func(it fp.Iterator[any], bad func(any) bool) bool {
+					return option.Traverse(it, func(x any) fp.Option[any] {
+						if bad(x) {
+							return fp.None[any]()
+						}
+						return fp.Some(x)
+					}).IsEmpty()
+				}},
+				{"option.SequenceIterator", func(it fp.Iterator[any], bad func(any) bool) bool {
+					return option.SequenceIterator(fp.MakeIterator(it.HasNext, func() fp.Option[any] {
+						x := it.Next()
+						if bad(x) {
+							return fp.None[any]()
+						}
+						return fp.Some(x)
+					})).IsEmpty()
+				}},
+				{"try.FoldM", func(it fp.Iterator[any], bad func(any) bool) bool {
+					return try.FoldM(it, 0, func(acc int, x any) fp.Try[int] {
+						if bad(x) {
+							return fp.Failure[int](E(7))
+						}
+						return fp.Success(acc + 1)
+					}).IsFailure()
+				}},
+				{"try.Traverse", func(it fp.Iterator[any], bad func(any) bool) bool {
+					return try.Traverse(it, func(x any) fp.Try[any] {
+						if bad(x) {
+							return fp.Failure[any](E(7))
+						}
+						return fp.Success(x)
+					}).IsFailure()
+				}},
+				{"try.Traverse_", func(it fp.Iterator[any], bad func(any) bool) bool {
+					return try.Traverse_(it, func(x any) fp.Try[any] {
+						if bad(x) {
+							return fp.Failure[any](E(7))
+						}
+						return fp.Success(x)
+					}) != nil
+				}},
+				{"try.SequenceIterator", func(it fp.Iterator[any], bad func(any) bool) bool {
+					return try.SequenceIterator(fp.MakeIterator(it.HasNext, func() fp.Try[any] {
+						x := it.Next()
+						if bad(x) {
+							return fp.Failure[any](E(7))
+						}
+						return fp.Success(x)
+					})).IsFailure()
+				}},
+				{"either.FoldM", func(it fp.Iterator[any], bad func(any) bool) bool {
+					return either.FoldM(it, 0, func(acc int, x any) fp.Either[string, int] {
+						if bad(x) {
+							return either.Left[string, int]("l")
+						}
+						return either.Right[string](acc + 1)
+					}).IsLeft()
+				}},
+				{"either.Traverse", func(it fp.Iterator[any], bad func(any) bool) bool {
+					return either.Traverse(it, func(x any) fp.Either[string, any] {
+						if bad(x) {
+							return either.Left[string, any]("l")
+						}
+						return either.Right[string](x)
+					}).IsLeft()
+				}},
+			}
+			for _, p := range probes {
+				pos, nexts, hasAfterFail, failedSeen := 0, 0, 0, false
+				it := fp.MakeIterator(func() bool {
+					if failedSeen {
+						hasAfterFail++
+					}
+					return pos < m
+				}, func() any {
+					x := pos
+					pos++
+					nexts++
+					if x == at {
+						failedSeen = true
+					}
+					return x
+				})
+				failed := p.run(it, isAt)
+				checks++
+				if !failed {
+					sink.DirectFail(p.name+"/first-failure", fmt.Sprintf("(law iterator-short-circuit n=%d failAt=%d)", m, at), "the result is not a failure")
+				}
+				if nexts != at+1 || hasAfterFail != 0 {
+					sink.DirectFail(p.name+"/pulls-after-failure", fmt.Sprintf("(law iterator-short-circuit n=%d failAt=%d)", m, at),
+						fmt.Sprintf("source advanced %d times (expected %d); HasNext asked %d time(s) after the failing element was delivered", nexts, at+1, hasAfterFail))
+				}
+			}
+		}
+	}
 	for i := 0; i < n; i++ {
 		v, e, p := r.Range(-5, 50), r.Range(1, 9), r.Range(1, 99)
 		calls := 0
